@@ -21,9 +21,12 @@ func Wrap(kw string, depth int, leaf jx.Obj, key string) jx.Obj {
 		case "properties":
 			cur = jx.Obj{"type": "object", "description": d, "properties": jx.Obj{key: cur, "other": jx.Obj{"type": "string"}}}
 		case "patternProperties":
-			cur = jx.Obj{"type": "object", "description": d, "patternProperties": jx.Obj{key: cur}}
+			cur = jx.Obj{"type": "object", "description": d, "patternProperties": jx.Obj{key: cur, "^sib-" + d: jx.Obj{"type": "object", "description": "sibling of " + d, "properties": jx.Obj{"s": jx.Obj{"type": "integer"}}}}}
 		case "definitions":
-			cur = jx.Obj{"type": "object", "description": d, "definitions": jx.Obj{key: cur}}
+			// with siblings: several entries in one map
+			cur = jx.Obj{"type": "object", "description": d, "definitions": jx.Obj{key: cur,
+				"sibA " + d: jx.Obj{"type": "object", "description": "sibling A of " + d, "properties": jx.Obj{"s": jx.Obj{"type": "integer"}}},
+				"sibB/" + d: jx.Obj{"type": "array", "description": "sibling B of " + d, "items": jx.Obj{"type": "string", "pattern": "^b" + d}}}}
 		case "items":
 			cur = jx.Obj{"type": "array", "description": d, "items": cur}
 		case "items[]":
